@@ -107,6 +107,42 @@ func (c *Ctx) charClasses(rule string) {
 	for _, p := range phis {
 		got[classOf[p]] = true
 	}
+	// counters kept in a local array indexed by class: the results are loads of
+	// its constant elements
+	var counts *ssa.Alloc
+	slotClass := map[int64]string{}
+	if len(got) == 0 || !got["upper"] {
+		for _, b := range fn.Blocks {
+			ret, ok := b.Instrs[len(b.Instrs)-1].(*ssa.Return)
+			if !ok {
+				continue
+			}
+			for i, v := range ret.Results {
+				ld, isLd := v.(*ssa.UnOp)
+				if !isLd || i >= res.Len() {
+					continue
+				}
+				ia, isIA := ld.X.(*ssa.IndexAddr)
+				if !isIA {
+					continue
+				}
+				a, isA := ia.X.(*ssa.Alloc)
+				k, isC := ConstInt(ia.Index)
+				if !isA || !isC || (counts != nil && counts != a) {
+					continue
+				}
+				if _, dup := slotClass[k]; dup {
+					continue
+				}
+				counts = a
+				slotClass[k] = res.At(i).Name()
+				got[res.At(i).Name()] = true
+			}
+		}
+		if counts != nil {
+			phis = nil
+		}
+	}
 	for k := range want {
 		if !got[k] {
 			r.Unknown(rule, name, "counters", pos, "no loop counter is returned as result '"+k+"'; shape not understood")
@@ -233,6 +269,83 @@ func (c *Ctx) charClasses(rule string) {
 			}
 		}
 		var moved []string
+		if counts != nil {
+			// every store into the array on the path walked: element k = element k + 1
+			resolve := func(v ssa.Value) ssa.Value {
+				for d := 0; d < 8; d++ {
+					x, isPhi := v.(*ssa.Phi)
+					if !isPhi {
+						return v
+					}
+					found := false
+					for i := len(path) - 1; i > 0 && !found; i-- {
+						if path[i] == x.Block() {
+							for j, pb := range x.Block().Preds {
+								if pb == path[i-1] {
+									v = x.Edges[j]
+									found = true
+								}
+							}
+							break
+						}
+					}
+					if !found {
+						return v
+					}
+				}
+				return v
+			}
+			slotOf := func(addr ssa.Value) (int64, bool) {
+				ia, ok := addr.(*ssa.IndexAddr)
+				if !ok || ia.X != ssa.Value(counts) {
+					return 0, false
+				}
+				return ConstInt(resolve(ia.Index))
+			}
+			for _, pb := range path[1:] {
+				if pb == header {
+					continue
+				}
+				for _, in := range pb.Instrs {
+					st, isSt := in.(*ssa.Store)
+					if !isSt {
+						continue
+					}
+					ia, isIA := st.Addr.(*ssa.IndexAddr)
+					if !isIA || ia.X != ssa.Value(counts) {
+						continue
+					}
+					k, okK := slotOf(st.Addr)
+					add, isAdd := st.Val.(*ssa.BinOp)
+					okUpd := false
+					var n int64
+					if okK && isAdd && add.Op == token.ADD {
+						x, y := add.X, add.Y
+						if _, isC := ConstInt(x); isC {
+							x, y = y, x
+						}
+						if c1, isC := ConstInt(y); isC {
+							if ld, isLd := x.(*ssa.UnOp); isLd {
+								if k2, ok2 := slotOf(ld.X); ok2 && k2 == k {
+									okUpd, n = true, c1
+								}
+							}
+						}
+					}
+					if !okUpd {
+						undecided = "update of the counter array not understood at " + c.P.InstrPos(st)
+						break
+					}
+					cls, known := slotClass[k]
+					if !known {
+						cls = sprintf("slot%d", k)
+					}
+					for j := int64(0); j < n; j++ {
+						moved = append(moved, cls)
+					}
+				}
+			}
+		}
 		for _, p := range phis {
 			var delta func(v ssa.Value, d int) (int64, bool)
 			delta = func(v ssa.Value, d int) (int64, bool) {
